@@ -501,6 +501,19 @@ def hosts_clip_relu_minmax():
         h.n(o2, ["a", "c2"], "b")
         h.out("b")
         out.append(h.build())
+    # constants whose rank exceeds x's: Min/Max broadcast x UP to the constant's rank, a Clip (scalar bounds) would not
+    for (o1, o2), xs, cs, (c1, c2) in itertools.product([("Min", "Min"), ("Max", "Max"), ("Min", "Max"), ("Max", "Min")], [(3,), (), (2, 3)],
+                                                        [(1,), (1, 1), (1, 1, 1)], [(-1.0, 2.0), (2.0, -1.0)]):
+        if len(cs) <= len(xs):
+            continue
+        h = H(f"{o2}({o1}(x,{c1}),{c2}) x={list(xs)} cshape={list(cs)} rank-raising constant")
+        h.inp("x", F, xs)
+        h.c("c1", np.full(cs, c1, dtype=f32))
+        h.c("c2", np.full(cs, c2, dtype=f32), "node")
+        h.n(o1, ["x", "c1"], "a")
+        h.n(o2, ["a", "c2"], "b")
+        h.out("b")
+        out.append(h.build())
     for o1, o2 in [("Min", "Min"), ("Max", "Max"), ("Min", "Max"), ("Max", "Min")]:
         h = H(f"{o2}({o1}(x)) single-input")
         h.inp("x", F, (3,))
@@ -1147,12 +1160,68 @@ def hosts_control_flow():
     return out
 
 
+def hosts_sequences():
+    """the folder's sequence evaluators: SplitToSequence (1-D / scalar, constant / graph-input split, keepdims, axes), SequenceAt,
+    ConcatFromSequence (new_axis), SequenceConstruct; at opsets 13, 17 and 18 (Split<num_outputs> and friends exist from 18 only)"""
+    out = []
+    for opset in (18, 17, 13):
+        for xs, axis in [((4, 2), 0), ((2, 4), 1), ((2, 4), -1), ((3, 2), 0)]:
+            d = xs[axis]
+            splits = [("vec", [1, d - 1]), ("vec_ones", [1] * d), ("scalar_even", 1 if d % 2 else 2), ("scalar_uneven", 3 if d == 4 else 2), ("absent", None)]
+            for sname, sval in splits:
+                for how in ("init", "input_runtime"):
+                    for keepdims in (1, 0):
+                        if sval is None and how != "init":
+                            continue
+                        if keepdims == 0 and sname.startswith("scalar"):
+                            # onnxruntime squeezes for a scalar split with keepdims=0, onnx.reference (and the specification:
+                            # 'if input split is specified, this attribute is ignored') does not: no agreed meaning to compare with
+                            continue
+                        h = H(f"SplitToSequence x={list(xs)} axis={axis} split={sname} {how} keepdims={keepdims} opset={opset}", opset=opset)
+                        h.inp("x", F, xs)
+                        ins = ["x"]
+                        if sval is not None:
+                            arr = np.array(sval, dtype=np.int64)
+                            if how == "init":
+                                h.c("sp", arr)
+                            else:
+                                h.inp("sp", I64, arr.shape)   # a run-time input: value unknown to the optimizer
+                            ins.append("sp")
+                        h.n("SplitToSequence", ins, "seq", axis=axis, keepdims=keepdims)
+                        h.c("i0", np.array(0, dtype=np.int64))
+                        h.c("im1", np.array(-1, dtype=np.int64))
+                        h.n("SequenceAt", ["seq", "i0"], "a")
+                        h.n("SequenceAt", ["seq", "im1"], "b")
+                        h.n("Neg", ["a"], "na")
+                        h.out("na", "b")
+                        out.append(h.build())
+            # ConcatFromSequence over a constructed / split sequence
+            for new_axis in (0, 1):
+                h = H(f"ConcatFromSequence(SplitToSequence x={list(xs)} axis={axis}) new_axis={new_axis} opset={opset}", opset=opset)
+                h.inp("x", F, xs)
+                h.c("sp", np.array([1] * d, dtype=np.int64))
+                h.n("SplitToSequence", ["x", "sp"], "seq", axis=axis)
+                h.n("ConcatFromSequence", ["seq"], "y", axis=axis if not new_axis else 0, new_axis=new_axis)
+                h.n("Neg", ["y"], "z")
+                h.out("z")
+                out.append(h.build())
+                h = H(f"ConcatFromSequence(SequenceConstruct(x, x+x)) x={list(xs)} axis={axis} new_axis={new_axis} opset={opset}", opset=opset)
+                h.inp("x", F, xs)
+                h.n("Add", ["x", "x"], "x2")
+                h.n("SequenceConstruct", ["x", "x2"], "seq")
+                h.n("ConcatFromSequence", ["seq"], "y", axis=axis, new_axis=new_axis)
+                h.out("y")
+                out.append(h.build())
+    return out
+
+
 FAMILIES = {
     "identity_ops": hosts_identity_ops, "casts": hosts_casts, "slices": hosts_slices, "dropout": hosts_dropout,
     "dropout_runtime": hosts_dropout_runtime,
     "expand": hosts_expand, "reshape_family": hosts_reshape_family, "clip_relu_minmax": hosts_clip_relu_minmax,
     "hardswish": hosts_hardswish, "matmul_gemm": hosts_matmul_gemm, "conv": hosts_conv, "scatter": hosts_scatter,
     "control_flow": hosts_control_flow, "conv_integer": hosts_conv_integer, "shape_attrs": hosts_shape_attrs, "optional_inputs": hosts_optional_inputs,
+    "sequences": hosts_sequences,
 }
 
 
@@ -1176,6 +1245,6 @@ def rule_models_for_optimizer(tier):
         out = []
         for fam, hs in by_fam.items():
             r.shuffle(hs)
-            out += hs if fam in ("control_flow", "optional_inputs") else hs[:60] if fam == "shape_attrs" else hs[:25]
+            out += hs if fam in ("control_flow", "optional_inputs") else hs[:60] if fam in ("shape_attrs", "sequences") else hs[:25]
         return out
     return hosts
